@@ -6,8 +6,9 @@
      cfdm/read_write/netcdf/netcdfread.py  _set_default_FillValue (mask=False reads)
      cfdm/mixin/propertiesdata.py  PropertiesData.apply_masking
      cfdm/data/data.py             Data.apply_masking
-   as repaired by handoff/C07-fix-1..5.diff; the behaviour of the pinned tree is
-   kept in the ..._old definitions (witnesses in Refuted.v).
+   as repaired by handoff/C07-fix-1..5.diff and handoff/C07-fix2-3.diff (safe-cast test and
+   valid_range precedence in apply_masking); the superseded behaviour is kept in the
+   ..._old definitions (witnesses in Refuted.v).
 
    Values.  Integers are exact in Z with the range of their numpy type and
    two's-complement wrap-around.  A float value is either NaN or an integer-valued
@@ -276,53 +277,88 @@ Definition read_model (d : dt) (A : attrs) (mask unpack : bool) (raw : list num)
 
 (* ------------------------------------------------------------------ apply_masking *)
 (* the properties a mask=False read leaves on the construct: _FillValue is set to the
-   default fill value when the variable has none (_set_default_FillValue) *)
-Definition fill_property (d : dt) (A : attrs) : attrval :=
-  match a_fill A with Some a => a | None => ANum d [Fin (default_fill d)] end.
-
-Definition attr_values (a : option attrval) : option (list num) :=
-  match a with
-  | None => Some []
-  | Some (ANum _ vs) => Some vs
-  | Some (AStr _) => None
-  end.
+   default fill value of the data type of the netCDF variable [rd] that the reader passes
+   to _set_default_FillValue when the variable has none.  The reader passes the variable
+   itself (rd = d), also for bounds, node coordinates, interior rings and the other
+   children of a construct; the parameter is kept so that "which variable's default is
+   recorded" is part of the correspondence. *)
+Definition fill_property (rd : dt) (A : attrs) : attrval :=
+  match a_fill A with Some a => a | None => ANum rd [Fin (default_fill rd)] end.
 
 (* repaired Data.apply_masking comparison (fix-1): NaN matches NaN in float data *)
 Definition fv_match (dd : dt) (fv x : num) : bool :=
   if num_isnan fv && is_float dd then num_isnan x else num_eqb x fv.
 
-(* PropertiesData.apply_masking followed by Data.apply_masking on the array of a
-   mask=False read.  Values are compared as numbers (numpy promotes both sides). *)
-Definition apply_masking_on (d : dt) (A : attrs) (dd : dt) (vals : list (option num))
+(* PropertiesData.apply_masking followed by Data.apply_masking(safe_cast=True) on the
+   array (data type dd) of a mask=False read, as repaired by handoff/C07-fix2-3.diff:
+   each of _FillValue and missing_value is one attribute that is used only if all of its
+   values cast safely to the array's type; valid_range (safe, two values) is preferred to
+   valid_min / valid_max; the values are cast to the array's type; vectors are flattened. *)
+Definition apply_masking_on (rd : dt) (A : attrs) (dd : dt) (vals : list (option num))
   : result (dt * list (option num)) :=
-  match attr_values (Some (fill_property d A)), attr_values (a_missing A),
-        attr_values (a_vmin A), attr_values (a_vmax A), attr_values (a_vrange A) with
-  | Some fvs, Some mvs, Some vmin, Some vmax, Some vrange =>
-    let has_range := match a_vrange A with Some _ => true | None => false end in
-    let has_min := match a_vmin A with Some _ => true | None => false end in
-    let has_max := match a_vmax A with Some _ => true | None => false end in
-    if has_range && (has_min || has_max) then Err ValueErr
-    else if has_range && negb (length vrange =? 2)%nat then Err ValueErr
-    else
-      let fill_values := fvs ++ mvs in                      (* fix-2: vectors are flattened *)
-      let vmin' := if has_range then Some (nth 0 vrange NaN)
-                   else if has_min then Some (head_or vmin NaN) else None in
-      let vmax' := if has_range then Some (nth 1 vrange NaN)
-                   else if has_max then Some (head_or vmax NaN) else None in
-      let masked (x : num) : bool :=
-        existsb (fun fv => fv_match dd fv x) fill_values
-        || match vmin' with Some m => num_ltb x m | None => false end
-        || match vmax' with Some m => num_ltb m x | None => false end in
-      Ok (dd, map (fun v => match v with
-                            | Some x => if masked x then None else Some x
-                            | None => None end) vals)
-  | _, _, _, _, _ => Err TypeErr        (* text attributes: outside the model *)
-  end.
+  let (sfill, fvs) := check_safecast dd (Some (fill_property rd A)) in
+  let (smiss, mvs) := check_safecast dd (a_missing A) in
+  let fill_values := (if sfill then map (cast dd) fvs else [])
+                     ++ (if smiss then map (cast dd) mvs else []) in
+  let (vmin', vmax') := valid_bounds dd A in
+  let masked (x : num) : bool :=
+    existsb (fun fv => fv_match dd fv x) fill_values
+    || match vmin' with Some m => num_ltb x m | None => false end
+    || match vmax' with Some m => num_ltb m x | None => false end in
+  Ok (dd, map (fun v => match v with
+                        | Some x => if masked x then None else Some x
+                        | None => None end) vals).
 
-Definition apply_masking_model (d : dt) (A : attrs) (unpack : bool) (raw : list num)
+(* read(mask=False, unpack=) then apply_masking() of a variable whose recorded default
+   fill value is that of type rd *)
+Definition apply_masking_recorded (rd d : dt) (A : attrs) (unpack : bool) (raw : list num)
   : result (dt * list (option num)) :=
   let (dd, vals) := read_model d A false unpack raw in
-  apply_masking_on d A dd vals.
+  apply_masking_on rd A dd vals.
+
+(* the reader as it is: every variable records its own default *)
+Definition apply_masking_model (d : dt) (A : attrs) (unpack : bool) (raw : list num)
+  : result (dt * list (option num)) :=
+  apply_masking_recorded d d A unpack raw.
+
+(* PropertiesDataBounds.apply_masking on the bounds (any child that is masked through its
+   parent): a masking property missing on the bounds is taken from the parent construct -
+   b.get_property(prop, c.get_property(prop, None)).  After a mask=False read the bounds
+   always carry a _FillValue of their own (recorded), so that one is never inherited. *)
+Definition inherit {T} (own parent : option T) : option T :=
+  match own with Some x => Some x | None => parent end.
+
+Definition bounds_attrs (Ab Ap : attrs) : attrs :=
+  mkAttrs (inherit (a_missing Ab) (a_missing Ap)) (a_fill Ab)
+          (inherit (a_vrange Ab) (a_vrange Ap)) (inherit (a_vmin Ab) (a_vmin Ap))
+          (inherit (a_vmax Ab) (a_vmax Ap)) (a_scale Ab) (a_offset Ab) (a_unsigned Ab).
+
+Definition apply_masking_bounds (rd db : dt) (Ab Ap : attrs) (unpack : bool) (raw : list num)
+  : result (dt * list (option num)) :=
+  let (dd, vals) := read_model db Ab false unpack raw in
+  apply_masking_on rd (bounds_attrs Ab Ap) dd vals.
+
+(* Field.apply_masking: the field's own data, then every metadata construct that has data
+   (_apply_masking_constructs -> PropertiesData / PropertiesDataBounds.apply_masking), each
+   with its bounds and (fix2-4) its interior ring.  A field is the list of its variables. *)
+Inductive fvar :=
+| Own (d : dt) (A : attrs) (raw : list num)                 (* data of the field, of a construct, of an interior ring *)
+| Child (db : dt) (Ab Ap : attrs) (raw : list num).         (* bounds / node coordinates, masked through the parent *)
+
+Definition fvar_apply (unpack : bool) (v : fvar) : result (dt * list (option num)) :=
+  match v with
+  | Own d A raw => apply_masking_model d A unpack raw
+  | Child db Ab Ap raw => apply_masking_bounds db db Ab Ap unpack raw
+  end.
+
+Definition fvar_read (mask unpack : bool) (v : fvar) : dt * list (option num) :=
+  match v with
+  | Own d A raw => read_model d A mask unpack raw
+  | Child db Ab _ raw => read_model db Ab mask unpack raw
+  end.
+
+Definition field_apply_masking (unpack : bool) (f : list fvar) := map (fvar_apply unpack) f.
+Definition field_read (mask unpack : bool) (f : list fvar) := map (fvar_read mask unpack) f.
 
 (* ------------------------------------------------------------------ pinned-tree behaviour *)
 (* F07c: the pinned tree viewed data of every type as unsigned integers; the IEEE-754
@@ -370,3 +406,50 @@ Definition apply_fill_values_old (A : attrs) (d : dt) (vals : list num) : result
     else if (length vals =? 1)%nat then Err ValueErr   (* the mask changes shape: outside the model *)
     else Err ValueErr
   end.
+
+(* F07g, F07h: before handoff/C07-fix2-3.diff the property values were used as they are
+   (no safe-cast test, compared as numbers) and valid_range together with valid_min or
+   valid_max raised *)
+Definition attr_values (a : option attrval) : option (list num) :=
+  match a with
+  | None => Some []
+  | Some (ANum _ vs) => Some vs
+  | Some (AStr _) => None
+  end.
+
+Definition apply_masking_on_old (d : dt) (A : attrs) (dd : dt) (vals : list (option num))
+  : result (dt * list (option num)) :=
+  match attr_values (Some (fill_property d A)), attr_values (a_missing A),
+        attr_values (a_vmin A), attr_values (a_vmax A), attr_values (a_vrange A) with
+  | Some fvs, Some mvs, Some vmin, Some vmax, Some vrange =>
+    let has_range := match a_vrange A with Some _ => true | None => false end in
+    let has_min := match a_vmin A with Some _ => true | None => false end in
+    let has_max := match a_vmax A with Some _ => true | None => false end in
+    if has_range && (has_min || has_max) then Err ValueErr
+    else if has_range && negb (length vrange =? 2)%nat then Err ValueErr
+    else
+      let fill_values := fvs ++ mvs in
+      let vmin' := if has_range then Some (nth 0 vrange NaN)
+                   else if has_min then Some (head_or vmin NaN) else None in
+      let vmax' := if has_range then Some (nth 1 vrange NaN)
+                   else if has_max then Some (head_or vmax NaN) else None in
+      let masked (x : num) : bool :=
+        existsb (fun fv => fv_match dd fv x) fill_values
+        || match vmin' with Some m => num_ltb x m | None => false end
+        || match vmax' with Some m => num_ltb m x | None => false end in
+      Ok (dd, map (fun v => match v with
+                            | Some x => if masked x then None else Some x
+                            | None => None end) vals)
+  | _, _, _, _, _ => Err TypeErr
+  end.
+
+Definition apply_masking_model_old (d : dt) (A : attrs) (unpack : bool) (raw : list num)
+  : result (dt * list (option num)) :=
+  let (dd, vals) := read_model d A false unpack raw in
+  apply_masking_on_old d A dd vals.
+
+(* before handoff/C07-fix2-4.diff PropertiesDataBounds.apply_masking left the interior
+   ring of a geometry coordinate alone: it stayed as the mask=False read presented it *)
+Definition apply_masking_interior_ring_old (d : dt) (A : attrs) (unpack : bool) (raw : list num)
+  : result (dt * list (option num)) :=
+  Ok (read_model d A false unpack raw).
